@@ -263,7 +263,7 @@ def build(make, reg=None):
     how = "factory"
     if not reg.locks:
         # fallback: replace lock-like instance attributes
-        for name, val in list(vars(obj).items()):
+        for name, val in list(getattr(obj, "__dict__", {}).items()):
             if type(val).__name__ in ("lock", "RLock") or (hasattr(val, "acquire") and hasattr(val, "release") and "lock" in name.lower()):
                 setattr(obj, name, SchedRLock(reg) if "RLock" in type(val).__name__ else SchedLock(reg))
                 how = "attribute"
